@@ -72,9 +72,17 @@ def _apply(e, v):
     from bloqade.shuttle.dialects.filled.types import FilledGrid
     k = e[0]
     if k == "vacate":
-        return FilledGrid.vacate(v, ilist.IList([tuple(p) for p in e[2]]))
+        # `vacancies: Iterable[...]`: every kind of iterable, one-shot ones included (the form is a function of the indices,
+        # so a replay uses the same one)
+        pairs = [tuple(p) for p in e[2]]
+        form = (len(pairs) + sum(a + 2 * b for a, b in pairs)) % 6
+        arg = (ilist.IList(pairs), pairs, tuple(pairs), (p for p in pairs), zip([a for a, _ in pairs], [b for _, b in pairs]),
+               iter(pairs))[form]
+        return FilledGrid.vacate(v, arg)
     if k == "fill":
-        return FilledGrid.fill(v, ilist.IList([tuple(p) for p in e[2]]))
+        pairs = [tuple(p) for p in e[2]]
+        form = (len(pairs) + sum(a + 2 * b for a, b in pairs)) % 3
+        return FilledGrid.fill(v, (ilist.IList(pairs), pairs, tuple(pairs))[form])
     if k == "shift":
         return v.shift(float(e[2]), float(e[3]))
     if k == "scale":
